@@ -137,6 +137,8 @@ def _strip_added(body_after: str, body_before: str) -> bool:
 
 
 def _run_case(ctx, case) -> F.Outcome:
+    if case[0] == "assigned":
+        return _run_assigned(ctx, case)
     form, pos, mention, own, dkind, marker = case
     src_text, note_lines = build_source(form, pos, mention, own)
     dest_text, tmap = build_dest(dkind)
@@ -298,20 +300,117 @@ def _run_same_page(ctx, case, src_text, note_lines) -> F.Outcome:
     return out
 
 
+# notes the index itself gives a ZID (written without one; `db create` assigns it and
+# rewrites the page); then moved before anything else happens
+ASSIGNED_FORMS = {
+    "dated-multi": ["- 2024-03-05 mvtarget dated note", "  continued  here", "  * bullet one"],
+    "todo-multi": ["o P2 mvtarget zidless todo", "  * b1", "  second line"],
+    "single": ["- mvtarget single zidless"],
+    "done-dated": ["x 2024-03-05 mvtarget done dated", "  * a bullet"],
+    "dated-single": ["o 2024-03-05 mvtarget dated todo @ctx"],
+}
+ASSIGNED_DESTS = ["block-nl", "header-only", "missing-template", "block-then-section"]
+
+
+def _run_assigned(ctx, case) -> F.Outcome:
+    _, form, dkind, marker = case
+    note = ASSIGNED_FORMS[form]
+    src_text = ("# Source page #inh\n\n- 240101#S1 neighbour one\n" + "\n".join(note)
+                + "\n- 240102#S2 neighbour two\n\n- 240103#S3 other block\n")
+    dest_text, tmap = build_dest(dkind)
+    files = {"src.zo": src_text, "dest.zot": TEMPLATE}
+    if dest_text is not None:
+        files["dest.zo"] = dest_text
+    zd = Z.make_zdir(files, "c10a")
+    out = F.Outcome()
+    try:
+        H.freeze(DAY)
+        r = Z.db_create(zd, DAY)
+        if not Z.cli_ok(r):
+            raise H.HarnessError("c10 assigned setup: db create failed: " + r.err[-400:])
+        s_text = (zd / "src.zo").read_text()
+        before_src, rs0 = _notes_by_zid(s_text)
+        problems = []
+        target = None
+        if before_src is not None:
+            target = next((n for n in before_src.values() if "mvtarget" in n["body"]), None)
+        if target is None or not target["zid"]:
+            problems.append(("no-zid-assigned-by-db-create", {"source_after_create": s_text}))
+        else:
+            mz = target["zid"]
+            sl = s_text.split("\n")
+            k = target["line"] - 1
+            note_lines = sl[k:k + len(note)]
+            if note_lines[1:] != note[1:]:
+                problems.append(("db-create-rewrote-more-than-the-first-line", {"expected_rest": note[1:], "observed": note_lines[1:]}))
+            before_dst = {}
+            if dest_text is not None:
+                before_dst, _ = _notes_by_zid(dest_text)
+            elif tmap:
+                before_dst, _ = _notes_by_zid(RENDERED[list(tmap.values())[0]] + "\n")
+            cfg = zd.parent / "cfg.yml"
+            import yaml
+
+            with open(cfg, "w") as f:
+                yaml.dump({"template_pattern_map": tmap}, f, sort_keys=False)
+            mv = H.run_cli(zd, "note", "move", mz, "dest.zo", *([marker] if marker else []), cfg=cfg, day=DAY)
+            after = Z.snapshot(zd, with_meta=False)
+            if not Z.cli_ok(mv):
+                problems.append(("move-failed", {"status": mv.status, "exit": mv.value, "stderr": mv.err[-600:]}))
+            else:
+                want_src = "\n".join(sl[:k] + sl[k + len(note):])
+                if after.get("src.zo") != want_src:
+                    problems.append(("source-not-minus-exactly-the-note", {"expected": want_src, "observed": after.get("src.zo")}))
+                base_dest = dest_text if dest_text is not None else RENDERED[list(tmap.values())[0]]
+                dst = after.get("dest.zo")
+                if dst is None:
+                    problems.append(("destination-missing-after-move", {}))
+                else:
+                    pr = _dest_line_algebra(base_dest, dst, note_lines, mz)
+                    if pr:
+                        problems.append(pr)
+                    a_src, _ = _notes_by_zid(after["src.zo"])
+                    a_dst, _ = _notes_by_zid(dst)
+                    if a_src is None or a_dst is None:
+                        problems.append(("source-page-no-longer-valid" if a_src is None else "destination-page-no-longer-valid", {}))
+                    elif sorted(list(a_src) + list(a_dst)) != sorted(list(before_src) + list(before_dst)):
+                        problems.append(("set-of-notes-changed", {"expected": sorted(list(before_src) + list(before_dst)),
+                                                                  "observed": sorted(list(a_src) + list(a_dst))}))
+                    elif mz not in a_dst:
+                        problems.append(("moved-note-not-in-destination", {}))
+                    else:
+                        new = a_dst[mz]
+                        if new["kind"] != (marker or target["kind"]):
+                            problems.append(("moved-note-has-wrong-kind", {"observed": new["kind"]}))
+                        if not _strip_added(new["body"], target["body"]):
+                            problems.append(("moved-note-body-changed", {"before": target["body"], "after": new["body"]}))
+            out.obs = H.digest([after])
+        out.nontrivial = H.digest(case)
+        if problems:
+            out.ok = False
+            out.sig = problems[0][0] + ":zid-assigned-by-index"
+            out.detail = {"source_before_create": src_text, "source_after_create": s_text, "destination": dest_text,
+                          "marker": marker, "problem": problems[0][1], "all": [q[0] for q in problems],
+                          "files_after": Z.snapshot(zd, with_meta=False)}
+    finally:
+        Z.drop(zd)
+    return out
+
+
 def _sig(problems, case) -> str:
     form, pos, mention, own, dkind, marker = case
     first = problems[0][0]
     return first
 
 
-def _dest_line_algebra(before: str, after: str, note_lines):
+def _dest_line_algebra(before: str, after: str, note_lines, mz: str = MZ):
     """Every line of `before` is preserved in order; the note's lines (first line
     possibly with a different kind / added metadata) appear once, contiguously;
     a blank line may be consumed or added next to the insertion."""
     bl = before.split("\n")
     al = after.split("\n")
     # locate the inserted run: the line carrying the moved ZID as its identity
-    idxs = [i for i, l in enumerate(al) if re.match(rf"^[-ox~<>] (P\d )?(\d{{6}} )?{re.escape(MZ)}( |$)", l)]
+    idxs = [i for i, l in enumerate(al) if re.match(rf"^[-ox~<>] (P\d )?(\d{{6}} )?{re.escape(mz)}( |$)", l)]
     if len(idxs) != 1:
         return ("note-not-inserted-exactly-once", {"occurrences": len(idxs), "after": after})
     i = idxs[0]
@@ -353,6 +452,10 @@ def _cases(ctx):
     else:
         for form, pos, mention, own, dkind, marker in it.product(NOTE_FORMS, POSITIONS, MENTIONS, OWN_TAGS, DESTS, MARKERS):
             cases.append([form, pos, mention, own, dkind, marker])
+    for form in ASSIGNED_FORMS:
+        for dkind in ASSIGNED_DESTS:
+            for marker in (None, "x"):
+                cases.append(["assigned", form, dkind, marker])
     seen = set()
     out = []
     for c in cases:
@@ -364,6 +467,9 @@ def _cases(ctx):
 
 
 def _sample(case):
+    if case[0] == "assigned":
+        return {"moved_note_as_written": ASSIGNED_FORMS[case[1]], "destination": build_dest(case[2])[0],
+                "steps": ["db create (assigns the ZID)", "note move <assigned ZID> dest.zo" + (f" {case[3]}" if case[3] else "")]}
     form, pos, mention, own, dkind, marker = case
     return {"source": build_source(form, pos, mention, own)[0], "destination": build_dest(dkind)[0],
             "command": f"zorg note move {MZ} dest.zo" + (f" {marker}" if marker else "")}
@@ -386,7 +492,9 @@ def run(ctx: F.Ctx):
             "ends in a section header, a note mentioning the ZID, the source page itself) x marker {none, x, ~}; quick "
             "covers every value of every dimension in rotation, thorough the full product. Oracle: "
             "line algebra on both files, then recompilation of both pages (same set of notes, "
-            "requested kind, body = old body + inserted metadata words, tags/properties superset)."
+            "requested kind, body = old body + inserted metadata words, tags/properties superset). "
+            "Plus 5 notes written WITHOUT a ZID (dated / undated, single / multi-line) that `db create` "
+            "gives a ZID, moved straight afterwards x 4 destinations x marker {none, x}."
         ),
         "bounds": {"cases": len(cases)},
         "assumptions": ["moving into a page that does not exist and has no template must fail without touching the source"],
